@@ -77,7 +77,7 @@ Definition run_pure (c : pure_case) : list tuple :=
   | PCPy out =>
       match py_messages out with
       | None => [[1%N]]
-      | Some ms => [0%N] :: map bytes ms
+      | Some ms => [0%N] :: map (fun m => bytes (one_line_s m)) ms
       end
   | PCShellSC step job wf runner =>
       [bytes (get_shell_name {| scs_wf := wf; scs_job := job; scs_runner := runner |} step)]
